@@ -309,3 +309,6 @@ func Die[C any](unit string, c C, msg string) {
 	fmt.Printf("FATAL-CASE unit=%s %s\n", unit, msg)
 	os.Exit(3)
 }
+
+// Replaying reports whether this process re-runs a stored case (exclusions of open findings do not apply then).
+func Replaying() bool { return os.Getenv("VERIF_REPLAY") != "" }
